@@ -22,6 +22,7 @@ type Params struct {
 	NoQuiesce  bool // skip the quiescent checks (used by callers that do their own)
 	OnQuiesce  func(s *Session) // extra probe at quiescent points
 	BeforeEnd  func(s *Session, commit bool) // called right before commit/abort
+	MinAlloc   int  // allocate (and write) this many pages first
 	KeepFill   int  // try to keep at most this percent of a bounded file live (0 = default 60)
 }
 
@@ -72,6 +73,12 @@ func (s *Session) everOverflow() bool { return s.Markers["overflow-tx"] > 0 }
 // Quiesce runs the checks that must hold between transactions.
 func (s *Session) Quiesce() {
 	s.ReadCheck("C03")
+	s.AccountCheck()
+}
+
+// AccountCheck: page accounting, statistics, lock state and ownership (C11, C09, C04) at a
+// point between transactions; reads allocator state only (no I/O).
+func (s *Session) AccountCheck() {
 	fs := s.F.VerifSnapshot()
 	live := uint64(len(s.Committed))
 	if !s.everOverflow() && !s.resized && fs.MetaEnd <= fs.DataEnd {
@@ -216,6 +223,13 @@ func (s *Session) RunTx(r *RNG, p Params) string {
 	}
 	if s.Begin(o) != "ok" {
 		return "begin-err"
+	}
+	if p.MinAlloc > 0 {
+		if ids, res := s.Alloc(p.MinAlloc); res == "ok" {
+			for _, id := range ids {
+				s.Write(id, "full")
+			}
+		}
 	}
 	nops := 1 + r.Intn(p.MaxOps)
 	keep := p.KeepFill
